@@ -297,7 +297,7 @@ Appendix B.1.2) together with the association bookkeeping of `coap_oscore_decryp
 path of `coap_oscore_new_pdu_encrypted_lkd`, the save watermark / persistent store and the restart of the process —
 the whole sender side of one security context over its life.  Transcribed from the tree after the fixes 155f0b4 (a
 response to an Observe request always uses the Sender Sequence Number), b3c6528 (the association is set up only after the
-request has been verified) and bba9d79 (`is_client`: an association that belongs to a request sent from this end never
+request has been verified), the R15c fix (a request caught by the Appendix B.1.2 trap leaves no association) and bba9d79 (`is_client`: an association that belongs to a request sent from this end never
 protects a response).  The key is always the Sender Key; the nonce is a function of (id, Partial IV): the endpoint's own
 Sender ID with its sequence number (`Nonce.own`), or the peer's id with the Partial IV of the request (`Nonce.ofReq`,
 `association->nonce`). -/
@@ -380,24 +380,39 @@ def respond (e : Endp) (t : Nat) (obsOpt sendPiv : Bool) : Endp × NObs :=
         -- 8.3 Step 3: nonce of the request; no Partial IV in the option
         ({ e with assocs := if a.observe then e.assocs else setAssoc e.assocs t none }, .sent none a.nonce)
 
+/-- `is_observe` of the association a verified request finds for its token (kept), 0 for a new one -/
+def keptObserve (a : Nat → Option Assoc) (t : Nat) : Bool :=
+  match a t with | some x => x.observe | none => false
+
+/-- `association->is_observe = 1` for the association of the token, if there is one -/
+def markObserve (a : Nat → Option Assoc) (t : Nat) : Nat → Option Assoc :=
+  match a t with | some x => setAssoc a t (some { x with observe := true }) | none => a
+
+/-- the Partial IV the challenge went out with -/
+def chalPiv : NObs → Option Nat
+  | .sent p _ => p
+  | _ => none
+
 def nstep (cfg : Cfg) (e : Endp) : NOp → Endp × NObs
   | .reqIn t ev obs =>
     let x := recv cfg e.rcp ev
     -- after a successful decryption: find / refresh / create the association of the token (is_observe kept / 0, is_client = 0)
     let a1 := if decrypted cfg e.rcp ev then
-        setAssoc e.assocs t (some { nonce := .ofReq ev.piv, observe := (match e.assocs t with | some a => a.observe | none => false),
-                                    client := false })
+        setAssoc e.assocs t (some { nonce := .ofReq ev.piv, observe := keptObserve e.assocs t, client := false })
       else e.assocs
     if x.2 = .chal then
       -- Appendix B.1.2 trap: build_and_send_error_pdu(…, echo_value, NULL, 1) protects the 4.01 as a response for this
       -- token with send_partial_iv = 1
       let y := respond { e with rcp := x.1, assocs := a1 } t false true
-      (y.1, .chal (match y.2 with | .sent p _ => p | _ => none))
+      -- the request is not handed to the application: oscore_delete_association(oscore_find_association(token))
+      ({ y.1 with assocs := setAssoc y.1.assocs t none }, .chal (chalPiv y.2))
+    else if decrypted cfg e.rcp ev && x.2 != .acc then
+      -- the other two exits of the trap (wrong Echo value: `drop`; the Echo request fails the validation: `rej401`): the
+      -- request was decrypted but is not handed to the application, its association is deleted
+      ({ e with rcp := x.1, assocs := setAssoc a1 t none }, .verdict x.2)
     else
       -- inner Observe option of an accepted request: association->is_observe = 1
-      let a2 := if x.2 = .acc ∧ obs then
-          (match a1 t with | some a => setAssoc a1 t (some { a with observe := true }) | none => a1)
-        else a1
+      let a2 := if x.2 = .acc ∧ obs then markObserve a1 t else a1
       ({ e with rcp := x.1, assocs := a2 }, .verdict x.2)
   | .sendReq t obsOpt dereg =>
     let x := ownPiv e.sys
